@@ -648,7 +648,30 @@ func (g *gcWorld) opMove() {
 		return
 	}
 	e := Pick(r, es)
-	switch r.Intn(7) {
+	switch r.Intn(8) {
+	case 7: // batch add of a pointer component: the movers join entities that hold that component already
+		p := Pick(r, g.pids)
+		v := Pick(r, []string{"V1", "V2", "V3"})
+		f := ecs.All(g.ids[v]).Without(g.ids[p])
+		movers := []ecs.Entity{}
+		for _, o := range es {
+			if g.has(o, v) && !g.has(o, p) {
+				movers = append(movers, o)
+			}
+		}
+		if r.Chance(0.5) {
+			w.Batch().Add(&f, g.ids[p])
+		} else {
+			q := w.Batch().AddQ(&f, g.ids[p])
+			for q.Next() {
+			}
+		}
+		for _, o := range movers {
+			val, ids := g.mkValue(p)
+			store(p, w.Get(o, g.ids[p]), val)
+			g.attach(o, p, ids, true)
+		}
+		g.cov.N["batch_pointer_component_added"] += len(movers)
 	case 6: // batch removal / exchange of a pointer component itself (whole tables move, the removed column stays behind)
 		p := Pick(r, g.pids)
 		v := Pick(r, []string{"V1", "V2", "V3"})
